@@ -9,14 +9,15 @@ class AliasShadowRoundTrip(BObl):
     id = 'C02.B.alias-shadow-roundtrip'
     property = 'C02'
     rule = 'API-built databases where a table alias equals another table\'s name, with refs and a group naming the shadowed table'
-    bound = 'exhaustive over ref kind x inline x schema of the shadowed table (fixed family)'
+    bound = 'exhaustive over ref kind x inline x schema of the shadowed table x group x declaration order (fixed family)'
 
     def cases(self, tier, seed):
         for typ in ('>', '<', '-'):
             for inline in (False, True):
                 for sch in ('public', 's2'):
                     for group in (False, True):
-                        yield {'type': typ, 'inline': inline, 'schema': sch, 'group': group}
+                        for order in ('alias-first', 'name-first'):
+                            yield {'type': typ, 'inline': inline, 'schema': sch, 'group': group, 'order': order}
 
     def exhaustive(self, tier):
         return True
@@ -27,8 +28,12 @@ class AliasShadowRoundTrip(BObl):
         db = Database()
         acc = Table('accounts', schema='app', alias='users', columns=[Column('id', 'int'), Column('uid', 'int')])
         usr = Table('users', schema=r['schema'], columns=[Column('id', 'int'), Column('aid', 'int')])
-        db.add(acc)
-        db.add(usr)
+        if r.get('order', 'alias-first') == 'alias-first':
+            db.add(acc)
+            db.add(usr)
+        else:       # the table whose name the alias spells is declared first
+            db.add(usr)
+            db.add(acc)
         db.add(Reference(r['type'], usr.columns[1], acc.columns[0], inline=r['inline']))
         db.add(Reference('>', acc.columns[1], usr.columns[0]))
         if r['group']:
